@@ -152,6 +152,16 @@ Theorem C20_runtime_repairs_present : rt_clone_struct_fixed = true /\ rt_slice_c
 Proof. vm_compute. repeat split; reflexivity. Qed.
 Print Assumptions C20_runtime_repairs_present.
 
+(* the struct accessors stop on an index outside [0, length) like every other accessor (measured policy [rt_struct_oob_aborts]; they used
+   to answer NULL -- which the emitted code dereferences -- / drop the store; repaired by 8cb32fe).  The model follows either policy *)
+Theorem C20_dyn_struct_index_checked : forall s i, in_range i (d_len s) = false ->
+  step rt_params s (GetStruct i) = RAbort /\ forall bs, step rt_params s (SetStruct i bs) = RAbort.
+Proof.
+  intros s i H. split; [|intros bs]; cbn [step]; rewrite H; cbn [negb]; change (p_struct_oob_aborts rt_params) with true;
+    repeat match goal with |- context [if ?c then _ else _] => destruct c end; reflexivity.
+Qed.
+Print Assumptions C20_dyn_struct_index_checked.
+
 Theorem C20_dyn_former_witnesses :
   fst (run rt_params (dyn_new rt_params EStruct) [PushStruct [1; 2]%N; Clone; GetStruct 0]) = [OUnit; OUnit; OCell (Blob [1; 2]%N)] /\
   fst (run rt_params (dyn_new rt_params EStruct) (repeat (PushStruct [10; 11; 12]%N) 9 ++ [Clone; Length; GetStruct 8]))
